@@ -6,10 +6,16 @@ design:     Runnable.tla at shared-variable grain (loop thread + controller thre
               MC_RunnableWindow.cfg / ..Revoked.cfg   EXPECTED counterexamples (the two findings, design level)
               MC_RunnableFixedUncond.cfg              EXPECTED counterexample for the half repair
               MC_RunnableFixed.cfg / ..Fixed1.cfg     repaired stop() ordering: everything holds
+              MC_RunnableResetInRun.cfg               EXPECTED counterexample: stop request cleared by the loop thread
+                                                      (head of run()) instead of start(): a stop() landing between
+                                                      start() returning and the loop thread's first statement is lost
             Notifier.tla / MC_Notifier.cfg
 spec->code: Gen_Runnable enumerates gated schedules (controller calls placed while the loop is inside do(), inside
-            the sleep, not running, or between the statements of stop() around its wake()); a Runnable subclass whose
-            do / interruptable_sleep / wake / wait rendezvous with the driver forces each schedule on the real class.
+            the sleep, not running, between the statements of stop() around its wake(), or during the start-up of
+            the loop thread: thread object assigned but not started / thread bootstrapped, start() returned, run()
+            not yet entered); a Runnable subclass whose do / interruptable_sleep / wake / wait rendezvous with the
+            driver, and a threading.Thread subclass (substituted for the name `threading` inside cloudsync.runnable,
+            from outside the repository) whose start() and run() do, force each schedule on the real class.
             Backoff: every do-outcome sequence up to a length x a grid of (min, max, mult), run(until=...) directly.
             Gen_Notifier enumerates notify / deliver(fail) / stop sequences, executed on the real NotificationManager.
 code->spec: everything that happened is recorded under one lock; Trace_Runnable (TLC) evaluates the property clauses
@@ -33,6 +39,9 @@ S = 65536                     # trace unit: 1/65536 s (all parameters are dyadic
 NORM = 1.0 / 1024             # the ordinary sleep passed to run()/start()
 T_BLOCK = 6.0                 # a gated sleep released in "block" mode waits at most this long for its wake()
 SETTLE = 12.0                 # generous: the driver waits this long for the threads to reach the predicted status
+DRAIN = 30.0                  # last resort bound of the free run at the end of a gated schedule (no verdict depends on it)
+STUCK_DO = 20                 # a call that must return is given up on once the loop has entered do() this often since
+GATE_NAMES = ("boot", "pre", "do", "sleep", "wkE", "wkX", "wtE", "thS")
 KINDS = {"start": None, "stopTW": (True, True), "stopTN": (True, False), "stopFW": (False, True),
          "stopFN": (False, False), "wake": None, "wait": None, "waitT": None}
 
@@ -59,10 +68,13 @@ class Recorder:
     def __init__(self, cfg):
         self.lock = threading.Lock()
         self.ev = [dict(cfg, e="cfg")]
+        self.ndo = 0
 
     def log(self, **ev):
         with self.lock:
             self.ev.append(ev)
+            if ev["e"] == "do":
+                self.ndo += 1
 
     @staticmethod
     def actor():
@@ -79,10 +91,15 @@ class Gates:
         self.permits = {t: 0 for t in actors}
         self.free = False
         self.mode = "poll"
+        self.gate_ths = False                  # hold the starter at the entry of Thread.start() (two controllers only)
+        self.skip = {"boot": 0, "thS": 0}      # start-up gates to walk through (the start() that precedes a schedule)
 
     def park(self, t, gate):
         with self.cv:
             if self.free:
+                return
+            if self.skip.get(gate, 0) > 0:
+                self.skip[gate] -= 1
                 return
             self.status[t] = gate
             self.cv.notify_all()
@@ -130,6 +147,18 @@ class _LogProxy:
         return getattr(self._real, n)
 
 
+class _ThreadingProxy:
+    """Stands in for the name `threading` inside cloudsync.runnable (from outside the repository): everything is the
+    real module except Thread, so that the start-up of a loop thread can be observed and held."""
+
+    def __init__(self, real, thread_cls):
+        self._real = real
+        self.Thread = thread_cls
+
+    def __getattr__(self, n):
+        return getattr(self._real, n)
+
+
 def K():
     """Classes over the repository's Runnable (built once per process, after import_repo)."""
     if _K:
@@ -138,6 +167,35 @@ def K():
     import cloudsync.runnable as R
     if not isinstance(R.log, _LogProxy):
         R.log = _LogProxy(R.log)
+
+    class LoopThread(threading.Thread):
+        """The thread object start() creates.  start(): 'Thread.start() entered' is logged (the thread object is
+        assigned, nothing runs yet) and, in gated mode with a second controller, the starter is held there.
+        run(): the new thread has bootstrapped (Thread.start() returns to the starter) and is held before the
+        first statement of the service's run()."""
+
+        def _owner(self):
+            o = getattr(getattr(self, "_target", None), "__self__", None)
+            return o if isinstance(o, HR) else None
+
+        def start(self):
+            o = self._owner()
+            if o is not None:
+                a = Recorder.actor()
+                o._rec.log(e="thS", a=a)
+                if o._gates and o._gates.gate_ths:
+                    o._gates.park(a, "thS")
+            return threading.Thread.start(self)
+
+        def run(self):
+            o = self._owner()
+            if o is not None and o._gates:
+                _tl.booted = True
+                o._gates.park(0, "boot")
+            return threading.Thread.run(self)
+
+    if not isinstance(R.threading, _ThreadingProxy):
+        R.threading = _ThreadingProxy(R.threading, LoopThread)
 
     class Boom(BaseException):
         pass
@@ -153,6 +211,7 @@ def K():
             self._outcome = outcome          # callable for free-running mode
             self._real_sleep = real_sleep
             self._fin_logged = False
+            self._in_block = False
             self.ncalls = 0
             if params:
                 mn, mx, (p, q) = params
@@ -164,6 +223,10 @@ def K():
             _tl.cur = self
             self._fin_logged = False
             exc = 0
+            if self._gates and not getattr(_tl, "booted", False):
+                self._gates.park(0, "boot")       # the thread object is not the substituted class: hold the thread here
+            _tl.booted = False
+            self._rec.log(e="run")
             try:
                 return R.Runnable.run(self, **kw)
             except BaseException:
@@ -204,7 +267,13 @@ def K():
                 g.park(0, "sleep")
                 if g.free:
                     return R.Runnable.interruptable_sleep(self, min(secs, 0.002))
-                return R.Runnable.interruptable_sleep(self, T_BLOCK if g.mode == "block" else 0)
+                if g.mode != "block":
+                    return R.Runnable.interruptable_sleep(self, 0)
+                self._in_block = True            # waits for a wake(); the final stop of the driver sends one at the latest
+                try:
+                    return R.Runnable.interruptable_sleep(self, T_BLOCK)
+                finally:
+                    self._in_block = False
             return R.Runnable.interruptable_sleep(self, secs if self._real_sleep else 0)
 
         def done(self):
@@ -230,7 +299,7 @@ def K():
                 self._gates.park(a, "wtE")
             return R.Runnable.wait(self, timeout=timeout)
 
-    _K.update(HR=HR, Boom=Boom, Runnable=R.Runnable, R=R)
+    _K.update(HR=HR, Boom=Boom, Runnable=R.Runnable, R=R, LoopThread=LoopThread)
     return _K
 
 
@@ -254,6 +323,28 @@ def invoke(r, rec, a, kd, start_kw=None):
         res, et = "exc", type(e).__name__
     rec.log(e="ret", a=a, res=res, et=et)
     return res
+
+
+MUST_RETURN = ("stopTW", "stopFW", "wait")
+
+
+def await_calls(th, rec, cur, limit=120.0):
+    """Wait for a thread that issues controller calls.  cur = {'kd': call in progress or None, 'n0': do() count when it
+    was entered}.  A waiting stop() / a wait() that is still in progress after the loop has entered do() STUCK_DO more
+    times is not waited for any longer (counted, not timed: a stop request the loop heeds lets it enter do() once more
+    at most): the caller goes on to the final stop, which ends the loop and with it the call.  Returns True when the
+    thread has finished.  No verdict depends on when this function gives up."""
+    t0 = time.time()
+    while th.is_alive():
+        th.join(0.002)
+        kd = cur.get("kd")
+        if kd in MUST_RETURN and rec.ndo - cur.get("n0", 0) >= STUCK_DO:
+            cur["abort"] = True
+            return False
+        if time.time() - t0 > limit:      # last resort; the caller's final stop comes next, then it joins the thread
+            cur["abort"] = True
+            return False
+    return True
 
 
 def cfg_of(params, direct):
@@ -367,13 +458,19 @@ def _in_threading(th):
             and fr.f_code.co_name in ("wait", "_wait_for_tstate_lock"))
 
 
-def run_gated(sched, prestarted):
-    """Force one TLC-chosen schedule on the real class.  Returns (trace, diverged: str or '')."""
+def run_gated(sched, prestarted, preboot=False):
+    """Force one TLC-chosen schedule on the real class.  Returns (trace, diverged: str or '').
+    prestarted: the schedule begins on a service whose first start() has returned; preboot: ... and whose loop thread
+    is still held before the first statement of run()."""
     HR = K()["HR"]
     toks = sched["toks"]
     ctls = sorted(int(k) for k in sched["fin"] if k != "0")
     rec = Recorder(cfg_of(DEFAULT_PARAMS, 0))
     gates = Gates([0] + ctls + [3])
+    gates.gate_ths = len(ctls) > 1
+    if prestarted:
+        gates.skip["thS"] = 1
+        gates.skip["boot"] = 0 if preboot else 1
     script = [t["x"] for t in toks if t["k"] == "do"]
     r = HR(rec, params=DEFAULT_PARAMS, script=script, gates=gates)
     workers = {c: Worker(c, r, rec, gates) for c in ctls}
@@ -384,10 +481,12 @@ def run_gated(sched, prestarted):
     def matches(t, want):
         st = gates.status[t]
         lt = _loop_thread(r)
-        if want in ("pre", "do", "sleep", "wkE", "wkX", "wtE", "idle"):
+        if want in GATE_NAMES or want == "idle":
             return st == want
         if want == "dead":
             return t == 0 and st == "run" and loop_gone(lt)
+        if want == "unborn":          # the thread object is assigned, Thread.start() has not launched it
+            return t == 0 and st == "run" and lt is not None and lt.ident is None
         if want == "blocked":
             th = lt if t == 0 else workers[t]
             return st == "run" and _in_threading(th)
@@ -400,14 +499,16 @@ def run_gated(sched, prestarted):
                 bad = [(t, w, gates.status[int(t)]) for t, w in want.items() if not matches(int(t), w)]
                 if not bad:
                     return ""
-                if time.time() - t0 > SETTLE:
+                # a thread held at a gate stays there until this driver releases it: held at another gate than the
+                # predicted one is final (no clock involved); anything else is given time
+                if any(st in GATE_NAMES for _, _, st in bad) or time.time() - t0 > SETTLE:
                     return "expected %s" % (bad,)
                 gates.cv.wait(0.0005)
 
     try:
         if prestarted:
+            gates.set(1, "run")          # before the call: the worker says "idle" when the call has returned
             workers[1].call("start")
-            gates.set(1, "run")
         for tok in toks:
             if tok["k"] == "do":
                 continue
@@ -425,8 +526,15 @@ def run_gated(sched, prestarted):
         if not diverged:
             diverged = settle(sched["fin"])
     finally:
-        # end of the schedule: open every gate, stop for good, wait for the loop thread (all logged like any other call)
+        # end of the schedule: open every gate and let the threads run freely until every controller call has returned
+        # or - a controller is waiting for a loop nobody stops, or for a loop that does not heed the stop - the loop has
+        # evidently gone on (a few more do() calls, counted, not timed; the recorded order is what TLC judges).  Then
+        # stop for good and wait for the loop thread (all logged like any other call).
         gates.open()
+        n0, t0 = rec.ndo, time.time()
+        while (any(gates.status[c] != "idle" for c in ctls) and rec.ndo - n0 < 3 and not r._in_block
+               and time.time() - t0 < DRAIN):
+            time.sleep(0.0005)
         _tl.actor = 3
         invoke(r, rec, 3, "stopTN")
         await_loop_gone(r)
@@ -444,8 +552,8 @@ def run_gated(sched, prestarted):
 
 
 def _gated_chunk(args):
-    scheds, prestarted = args
-    return [run_gated(s, prestarted) for s in scheds]
+    scheds, prestarted, preboot = args
+    return [run_gated(s, prestarted, preboot) for s in scheds]
 
 
 # ---------------------------------------------------------------------------------------------------
@@ -463,18 +571,24 @@ def run_free(seed):
         if d:
             time.sleep(d)
 
+    cur = {}
+
     def owner():
         _tl.actor = 1
         invoke(r, rec, 1, "start")
         stopped = False
         for _ in range(r1.randint(2, 5)):
+            if cur.get("abort"):
+                break
             jitter(r1)
             if stopped:
                 kd = r1.choice(["start", "start", "wait", "wake", "stopFW"])
             else:
                 kd = r1.choice(["stopFW", "stopFW", "stopFN", "stopFN", "wake", "wake", "waitT", "stopTW", "stopTN"]
                                + (["start"] if r1.random() < 0.1 else []))
+            cur["n0"], cur["kd"] = rec.ndo, kd
             res = invoke(r, rec, 1, kd)
+            cur["kd"] = None
             if kd.startswith("stop"):
                 stopped = True
             elif kd == "start" and res == "ok":
@@ -490,10 +604,11 @@ def run_free(seed):
     t2 = threading.Thread(target=second, daemon=True)
     t1.start()
     t2.start()
-    t1.join(60)
+    await_calls(t1, rec, cur, limit=60.0)
     _tl.actor = 3
     invoke(r, rec, 3, "stopTN")
     await_loop_gone(r)
+    t1.join(60)
     t2.join(60)
     if t1.is_alive() or t2.is_alive():
         raise MachineryError("free-running trace %d: a controller thread did not finish" % seed)
@@ -617,12 +732,25 @@ def run_calls(calls):
     HR = K()["HR"]
     rec = Recorder(cfg_of(DEFAULT_PARAMS, 0))
     r = HR(rec, params=DEFAULT_PARAMS, real_sleep=lambda: 0)
-    _tl.actor = 1
-    for kd in calls:
-        invoke(r, rec, 1, kd)
+    cur = {}
+
+    def body():
+        _tl.actor = 1
+        for kd in calls:
+            if cur.get("abort"):
+                break
+            cur["n0"], cur["kd"] = rec.ndo, kd
+            invoke(r, rec, 1, kd)
+            cur["kd"] = None
+    th = threading.Thread(target=body, daemon=True)      # a stop() that never returns must not hang the check
+    th.start()
+    await_calls(th, rec, cur)
     _tl.actor = 3
     invoke(r, rec, 3, "stopTN")
     await_loop_gone(r)
+    th.join(60)
+    if th.is_alive():
+        raise MachineryError("call sequence %s: the controller thread did not finish after the final stop" % (calls,))
     invoke(r, rec, 3, "wait")
     _tl.actor = None
     return rec.ev
@@ -632,13 +760,13 @@ def run_calls(calls):
 # TLC glue
 # ---------------------------------------------------------------------------------------------------
 ALLK = '{"start", "stopTW", "stopTN", "stopFW", "stopFN", "wake", "wait", "waitT"}'
-PLAIN = ["TypeOK", "BackoffLaw", "ClearOnSuccess", "BackoffState", "NoDoAfterStopReturned", "DoneExactlyOnceIfFinal",
+PLAIN = ["TypeOK", "BackoffLaw", "ClearOnSuccess", "BackoffState", "NoDoAfterStopReturned", "StopCanReturn", "DoneExactlyOnceIfFinal",
          "NoRestartAfterFinalStop", "SurvivesAnythingSeen"]
 
 
 def runnable_cfg(ctx, name, *, ctls, kinds, outs, calls, maxdo, until, pre, fixed, tail):
     return tc.gen_cfg(ctx, name, "CONSTANTS\n Ctls = %s\n Owner = 1\n OpKinds = %s\n Outcomes = %s\n MaxCalls = %d\n"
-                      " MaxDo = %d\n UseUntil = %s\n PreStarted = %s\n FixedStopOrder = %d\n%s\nCHECK_DEADLOCK FALSE\n"
+                      " MaxDo = %d\n UseUntil = %s\n PreStarted = %s\n FixedStopOrder = %d\n ResetInRun = FALSE\n%s\nCHECK_DEADLOCK FALSE\n"
                       % (ctls, kinds, outs, calls, maxdo, "TRUE" if until else "FALSE", "TRUE" if pre else "FALSE", fixed, tail))
 
 
@@ -683,15 +811,17 @@ def design_runs(ctx):
     jobs += [("MC_RunnableWindow", expect("MC_RunnableWindow.cfg", "NoStopOrderWindow", "expected counterexample: loop exits between wake() and the final-stop flag")),
              ("MC_RunnableRevoked", expect("MC_RunnableRevoked.cfg", "NoFinalRevoked", "expected counterexample: a non-final stop revokes a final stop")),
              ("MC_RunnableFixedUncond", expect("MC_RunnableFixedUncond.cfg", "NoFinalRevoked", "expected counterexample: unconditional assignment moved to the front still revokes")),
+             ("MC_RunnableResetInRun", expect("MC_RunnableResetInRun.cfg", "StopCanReturn", "expected counterexample: stop request cleared by the loop thread at the head of run(): a stop() landing before the loop thread's first statement is lost")),
              ("MC_Notifier", clean("Notifier", "MC_Notifier.cfg", "design: notification queue, thread mode", 2)),
              ("MC_NotifierDirect", clean("Notifier", "MC_NotifierDirect.cfg", "design: notification queue, direct do()", 2))]
     return jobs
 
 
-def gen_schedules(ctx, name, simulate=None, **c):
+def gen_schedules(ctx, name, simulate=None, preboot=False, fixed=0, **c):
     maxtok = c.pop("maxtok")
-    cfg = runnable_cfg(ctx, "Gen_%s.cfg" % name, fixed=0, until=False,
-                       tail=" MaxTok = %d\nSPECIFICATION GenSpec\nINVARIANT Emit" % maxtok, **c)
+    cfg = runnable_cfg(ctx, "Gen_%s.cfg" % name, fixed=fixed, until=False,
+                       tail=" MaxTok = %d\n PreBoot = %s\nSPECIFICATION GenSpec\nINVARIANT Emit"
+                       % (maxtok, "TRUE" if preboot else "FALSE"), **c)
     kw = {}
     if simulate:
         kw = dict(simulate="num=%d" % simulate, depth=400, extra=["-seed", str(ctx.seed + 1)])
@@ -804,7 +934,7 @@ def exec_case(case):
     if fam == "backoff":
         return "runnable", run_backoff(list(case["seq"]), (case["params"][0], case["params"][1], tuple(case["params"][2])))
     if fam == "gated":
-        tr, _ = run_gated(case["schedule"], case.get("prestarted", False))
+        tr, _ = run_gated(case["schedule"], case.get("prestarted", False), case.get("preboot", False))
         return "runnable", tr
     if fam == "calls":
         return "runnable", run_calls(case["calls"])
@@ -823,7 +953,8 @@ def _run(ctx, pool):
         "backoff: every sequence of do() outcomes {did, nothing, backoff request, Exception, BaseException} up to length "
         "%d x %d parameter triples, run(until=...) on the real class, non-trivial = contains a failure; "
         "gated: schedules enumerated by TLC from Gen_Runnable (release/call tokens at the gates do, sleep, wake entry, wake "
-        "exit, wait entry), non-trivial = a controller token is placed while the loop thread exists; "
+        "exit, wait entry, and in the start-up of the loop thread: entry of Thread.start() inside start(), new thread "
+        "bootstrapped but run() not entered), non-trivial = a controller token is placed while the loop thread exists; "
         "calls: every sequence of <= %d calls of one controller over {start, stop(T,wait), stop(F,wait), stop(T,nowait), wait} "
         "against a freely running loop, non-trivial = something is called after a start(); "
         "free: real threads with seeded jitter, non-trivial = a controller call is logged while the loop is between a do() "
@@ -839,10 +970,17 @@ def _run(ctx, pool):
         "'stop() for a started service' = the stop() was entered after a start() had returned, with no other stop(), no "
         "start() and no end of the loop (until / finally block) logged in between; overlapping start()/stop() calls and two "
         "concurrent start() calls are not judged (the model shows done() can run twice there)",
-        "observation points: entry of the overridable do / interruptable_sleep / wake / wait / done, call and return of the "
-        "controller calls, return of run(), the until predicate, and the debug log line at the head of run()'s finally block "
-        "(cloudsync.runnable.log replaced by a proxy from /verif); order = one recorder lock; verdict clauses are evaluated "
-        "by TLC on that order only, never on elapsed time",
+        "observation points: entry of the overridable do / interruptable_sleep / wake / wait / done / run, call and return "
+        "of the controller calls, return of run(), the until predicate, the debug log line at the head of run()'s finally "
+        "block (cloudsync.runnable.log replaced by a proxy from /verif), and start() / run() of the thread object start() "
+        "creates (the name `threading` inside cloudsync.runnable replaced by a proxy from /verif whose Thread is a "
+        "subclass of threading.Thread); order = one recorder lock; verdict clauses are evaluated by TLC on that order "
+        "only, never on elapsed time",
+        "'stop() never returns' is judged in a bounded form on the recorded order (clause NoDoAfterStopReturned, window "
+        "StopCannotReturn): once a judged stop() has entered its wait() or has returned, and nothing has started the "
+        "service again, the loop may enter the one do() it was about to call, a second do() means the request is lost "
+        "on the loop; the driver never waits for such a stop() by the clock: it counts do() calls and then ends the "
+        "service with a final stop of its own (which the trace shows like any other call)",
         "thread interleavings of the free-running family are whatever the OS produced in this run; gated schedules are "
         "forced by the driver (a thread predicted to block is observed inside threading.py before the next release)",
         "__stopped / the `stopped` property and `started` are not modelled (no clause depends on them); run(timeout=...) "
@@ -893,33 +1031,50 @@ def _run(ctx, pool):
     add(traces, cases, "backoff", conf=sorted(rng.sample(range(len(traces)), min(len(traces), 240 if quick else 2000))))
 
     # ---- gated schedules -------------------------------------------------------------------------
-    fam = []
-    ga = gen_schedules(ctx, "GA", ctls="{1}", kinds='{"stopTW", "stopTN", "stopFW", "wake", "wait"}',
-                       outs='{"did", "exc", "sstopF"}', calls=2, maxdo=1, pre=True, maxtok=7 if quick else 8)
-    fam.append(("GA", ga, True))
-    gc = gen_schedules(ctx, "GC", ctls="{1}", kinds='{"start", "stopTW", "stopFW", "stopTN", "wait"}', outs='{"did"}',
-                       calls=3 if quick else 4, maxdo=1, pre=False, maxtok=7 if quick else 9)
-    fam.append(("GC", gc, False))
-    gbc = dict(ctls="{1, 2}", kinds='{"start", "stopTW", "stopTN", "stopFW", "wake", "wait"}', outs='{"did", "exc", "sstopF"}',
-               calls=2, maxdo=2, pre=True, maxtok=7)
-    gb = gen_schedules(ctx, "GB", simulate=120 if quick else None, **gbc)
-    fam.append(("GB", gb, True))
-    ctx.extra["gated_families"] = {n: len(s) for n, s, _ in fam}
-    ctx.extra["gated_exhaustive"] = ["GA", "GC"] + ([] if quick else ["GB"])
+    # name -> (generator arguments, the schedule starts on a started service, ... whose loop thread is held at "boot")
+    K7 = '{"start", "stopTW", "stopTN", "stopFW", "stopFN", "wake", "wait"}'
+    specs = [
+        ("GA", dict(ctls="{1}", kinds='{"stopTW", "stopTN", "stopFW", "wake", "wait"}', outs='{"did", "exc", "sstopF"}',
+                    calls=2, maxdo=1, pre=True, maxtok=7 if quick else 8), True, False),
+        ("GC", dict(ctls="{1}", kinds='{"start", "stopTW", "stopFW", "stopTN", "wait"}', outs='{"did"}',
+                    calls=3 if quick else 4, maxdo=1, pre=False, maxtok=8 if quick else 10), False, False),
+        ("GB", dict(ctls="{1, 2}", kinds='{"start", "stopTW", "stopTN", "stopFW", "wake", "wait"}', outs='{"did", "exc", "sstopF"}',
+                    calls=2, maxdo=2, pre=True, maxtok=7, simulate=120 if quick else None), True, False),
+        # start-up window of the loop thread: the first start() has returned, the loop thread has not executed a
+        # statement of run(); every placement of <= 2 (3) calls of one controller before / after the driver lets it run
+        ("GW", dict(ctls="{1}", kinds=K7, outs='{"did"}', calls=2 if quick else 3, maxdo=1, pre=True, preboot=True,
+                    maxtok=7 if quick else 8, fixed=variant), True, True),
+        # two controllers from a service that was never started: the starter is also held inside start() at the entry
+        # of Thread.start() (thread object assigned, not running), the other controller's calls land before / in /
+        # after both windows
+        ("GS", dict(ctls="{1, 2}", kinds=K7, outs='{"did"}', calls=2, maxdo=1, pre=False, maxtok=7 if quick else 8,
+                    fixed=variant), False, False),
+    ]
+    with ThreadPoolExecutor(max_workers=3) as gex:
+        gfut = [(n, gex.submit(gen_schedules, ctx, n, **kw), pre, pb) for n, kw, pre, pb in specs]
+        fam = [(n, fu.result(), pre, pb) for n, fu, pre, pb in gfut]
+    ctx.extra["gated_families"] = {n: len(sc) for n, sc, _, _ in fam}
+    ctx.extra["gated_exhaustive"] = [n for n, kw, _, _ in specs if not kw.get("simulate")]
+
+    def in_startup(sc):          # a controller acts while the loop thread is created / bootstrapped but has not run
+        return any(t["k"] in ("call", "rel") and t["a"] != 0 and t["pre"].get("0") in ("boot", "unborn") for t in sc["toks"])
+    ctx.extra["gated_in_startup_window"] = {n: sum(1 for x in sc if in_startup(x)) for n, sc, _, _ in fam}
+    gjobs, gmeta = [], []
+    for name, scheds, pre, pb in fam:
+        for ci, c in enumerate(chunks(scheds, len(scheds) // (3 * nproc) + 1)):
+            gjobs.append((c, pre, pb))
+            gmeta.append((name, pre, pb, c))
+    res = pmap(pool, _gated_chunk, gjobs)
     gtr, gcases, ndiv = [], [], 0
-    for name, scheds, pre in fam:
-        res = pmap(pool, _gated_chunk, [(c, pre) for c in chunks(scheds, len(scheds) // (3 * nproc) + 1)])
-        k = 0
-        for ch in res:
-            for tr, div in ch:
-                case = {"family": "gated", "schedule": scheds[k], "prestarted": pre, "gen": name}
-                k += 1
-                gtr.append(tr)
-                gcases.append(case)
-                if div:
-                    ndiv += 1
-                    ctx.nonconf({"what": "gated schedule could not be forced on the real class (threads did not reach the "
-                                         "status the model predicts)", "diverged": div, "case": case})
+    for (name, pre, pb, c), ch in zip(gmeta, res):
+        for sc, (tr, div) in zip(c, ch):
+            case = {"family": "gated", "schedule": sc, "prestarted": pre, "preboot": pb, "gen": name}
+            gtr.append(tr)
+            gcases.append(case)
+            if div:
+                ndiv += 1
+                ctx.nonconf({"what": "gated schedule could not be forced on the real class (threads did not reach the "
+                                     "status the model predicts)", "diverged": div, "case": case})
     ctx.extra["gated_diverged"] = ndiv
 
     def gated_nontrivial(s):
